@@ -201,7 +201,7 @@ func runC09(c *wk.Ctx) {
 	c.Floor("behaviour_comparisons", 3000)
 	c.Floor("plugin_schemas", 20)
 	ctors := c09Constructors()
-	n := c.N(1500, 50000)
+	n := c.N(1500, 150000)
 	c.Cases(n, func(idx int64, r *wk.Rand) {
 		env := &gen.Env{}
 		// ---- (b) one per constructor -------------------------------------------------------------
